@@ -5,7 +5,7 @@
    - write_zooms (single pass, with its skipping rules) and write_zoom_vals (two passes) lay the kept
      levels out one after the other: every directory entry decodes (Proofs/C09Zoom.zoom_level_ok)
      and the regions follow each other. *)
-From BT Require Import Base.Util Base.LE Base.Float Generated.Consts Model.RTree Model.BBIFile Model.BigWigWrite
+From BT Require Import Base.Util Base.LE Base.Float Generated.Consts Model.RTree Model.BBIFile Model.BigWigWrite Model.BigWigWriteZ
   Proofs.Chunks Proofs.BigWigQuery Proofs.RTreeAbs Proofs.RTreeBuild Proofs.RTreeCodec Proofs.FileRegions
   Proofs.BigWigFile Proofs.BigWigFileData Proofs.BigWigFileRoundTrip Proofs.BigWigFileThms
   Proofs.ZoomLoop Proofs.ZoomInv Proofs.ZoomThms Proofs.ZoomSections Proofs.ZoomBwLevels
@@ -166,19 +166,27 @@ Proof. destruct l as [|r l]; intros lo lo' H; cbn [chain_end]; lia. Qed.
 (* ---------- the two zoom writers lay the kept levels out one after the other ---------- *)
 Section Loops.
 Variables (fp : fpmode) (o : opts) (chroms : list fchrom) (img : list N) (n : N) (inflate : N -> N -> option (list N)).
+Variables (compress : list N -> list N) (cz : bool) (ubuf : N).
 Hypothesis Hn : n = Nlen img.
 Hypothesis Hn64 : n < W64.
 Hypothesis Hopts : opts_ok o.
+Hypothesis Hcne : forall b, compress b <> [].
+Hypothesis Hmode : blk_mode cz ubuf.
+Hypothesis Hinf : cz = true -> inflate_ok compress img inflate.
 Variable rsecs_of : N -> list (list zrec).
 Hypothesis Hgood : forall size, 1 <= size ->
   Forall (zsec_good (o_ips o)) (rsecs_of size) /\ Forall (zrec_good chroms) (concat (rsecs_of size))
   /\ StronglySorted zrec_lt (concat (rsecs_of size)).
 
-Definition lv (size : N) : BBIFile.zoom_level := {| zl_res := size; zl_secs := zsecs fp (rsecs_of size) |}.
+(* a level as handed to the zoom writers: its sections compressed when [cz] *)
+Definition lv (size : N) : BBIFile.zoom_level := zlevel compress cz {| zl_res := size; zl_secs := zsecs fp (rsecs_of size) |}.
 Definition level_content (h : zoom_header) : N * list fzrec := (zh_res h, map (zr_view fp) (concat (rsecs_of (zh_res h)))).
+(* a resolution the file can hold: fits u32, and its sections fit the advertised buffer *)
+Definition size_ok (size : N) : Prop :=
+  1 <= size < W32 /\ (cz = true -> Forall (fun rs => 32 * Nlen rs <= ubuf) (rsecs_of size)).
 
 Definition laid_out (pos : N) (bytes : list N) (hdrs : list zoom_header) : Prop :=
-  exists zlist, omap (FormatDecode.zoom_level img n false inflate true chroms 0) (map zh_view hdrs) = Some zlist
+  exists zlist, omap (FormatDecode.zoom_level img n false inflate true chroms ubuf) (map zh_view hdrs) = Some zlist
     /\ Forall zh_ok hdrs
     /\ reg_chain pos (zoom_regions zlist) /\ chain_end pos (zoom_regions zlist) <= pos + Nlen bytes
     /\ zoom_content zlist = map level_content hdrs.
@@ -188,18 +196,19 @@ Proof. exists []. cbn. repeat split; try constructor; lia. Qed.
 
 (* one level written at [pos], followed by what is laid out after it *)
 Lemma laid_out_cons size pos ix lvn more hs :
-  1 <= size < W32 ->
-  let secs := zsecs fp (rsecs_of size) in
+  size_ok size ->
+  let secs := wsecs fp (rsecs_of size) compress cz in
   let zsize := Nlen (data_bytes secs) in
   write_index (o_bs o) (o_ips o) (pos + zsize) (place pos secs) = Ok (ix, lvn) ->
   has_at img pos ((data_bytes secs ++ ix) ++ more) ->
   laid_out (pos + Nlen (data_bytes secs ++ ix)) more hs ->
   laid_out pos ((data_bytes secs ++ ix) ++ more) ({| zh_res := size; zh_data := pos; zh_index := pos + zsize |} :: hs).
 Proof.
-  intros Hsz secs zsize Hix Hat (zlist & Hom & Hok & Hch & Hend & Hcont).
+  intros [Hsz Hub] secs zsize Hix Hat (zlist & Hom & Hok & Hch & Hend & Hcont).
   apply has_at_app in Hat as [Hhere Hmore]. apply has_at_app in Hhere as [Hdat Hixat]. fold zsize in Hixat.
   destruct (Hgood size ltac:(lia)) as (G1 & G2 & G3). destruct Hopts as (Hb & Hi).
-  destruct (zoom_level_ok img n inflate fp chroms (o_bs o) (o_ips o) (rsecs_of size) size pos ix lvn Hn Hn64 Hb Hi G1 G2 G3 Hdat Hix Hixat)
+  destruct (zoom_level_ok img n inflate fp chroms (o_bs o) (o_ips o) (rsecs_of size) compress cz ubuf size pos ix lvn Hn Hn64 Hb Hi G1 G2 G3 Hcne Hmode
+              (fun E => conj (Hinf E) (Hub E)) Hdat Hix Hixat)
     as (e & Hzl & He). fold secs zsize in Hzl, He.
   pose proof (has_at_bound img _ _ Hixat) as Hb1. rewrite <- Hn in Hb1.
   rewrite Nlen_app in *. fold zsize in Hch, Hend, Hmore |- *.
@@ -216,19 +225,20 @@ Proof.
 Qed.
 
 Lemma loop_layout : forall zsizes ds pos lc zc bytes hdrs,
-  Forall (fun z => 1 <= z < W32) zsizes ->
+  Forall size_ok zsizes ->
   write_zooms_loop o ds pos (map lv zsizes) lc zc = Ok (bytes, hdrs) -> has_at img pos bytes ->
   laid_out pos bytes hdrs.
 Proof.
   induction zsizes as [|z zs IH]; intros ds pos lc zc bytes hdrs Hpos H Hat; cbn [map write_zooms_loop] in H.
   - apply Ok_inj in H. pose proof (f_equal fst H) as E1. pose proof (f_equal snd H) as E2. cbn [fst snd] in E1, E2. subst. apply laid_out_nil.
-  - inversion Hpos as [|? ? Hz Hpos']; subst. cbv zeta in H. cbn [lv zl_secs zl_res] in H.
+  - inversion Hpos as [|? ? Hz Hpos']; subst. cbv zeta in H. cbn [lv zlevel zl_secs zl_res] in H.
+    fold (wsecs fp (rsecs_of z) compress cz) in H.
     destruct (_ && (ds / 2 <? _)); [exact (IH _ _ _ _ _ _ Hpos' H Hat)|].
     destruct (_ && match lc with None => false | Some l => _ end); [exact (IH _ _ _ _ _ _ Hpos' H Hat)|].
     destruct (write_index _ _ _ _) as [[ix lvn]| | |] eqn:Eix; cbn [rbind] in H; try discriminate.
     destruct (_ && (o_maxzooms o <=? zc + 1)).
     + apply Ok_inj in H. pose proof (f_equal fst H) as E1. pose proof (f_equal snd H) as E2. cbn [fst snd] in E1, E2. subst bytes hdrs.
-      rewrite <- (app_nil_r (data_bytes (zsecs fp (rsecs_of z)) ++ ix)) in Hat |- *.
+      rewrite <- (app_nil_r (data_bytes (wsecs fp (rsecs_of z) compress cz) ++ ix)) in Hat |- *.
       apply (laid_out_cons z pos ix lvn [] [] Hz Eix Hat). apply laid_out_nil.
     + destruct (write_zooms_loop o ds _ (map lv zs) _ _) as [[more hs]| | |] eqn:E; cbn [rbind] in H; try discriminate.
       apply Ok_inj in H. pose proof (f_equal fst H) as E1. pose proof (f_equal snd H) as E2. cbn [fst snd] in E1, E2. subst bytes hdrs.
@@ -238,13 +248,14 @@ Proof.
 Qed.
 
 Lemma two_pass_layout : forall zsizes pos bytes hdrs,
-  Forall (fun z => 1 <= z < W32) zsizes ->
+  Forall size_ok zsizes ->
   write_zooms_two_pass o pos (map lv zsizes) = Ok (bytes, hdrs) -> has_at img pos bytes ->
   laid_out pos bytes hdrs.
 Proof.
   induction zsizes as [|z zs IH]; intros pos bytes hdrs Hpos H Hat; cbn [map write_zooms_two_pass] in H.
   - apply Ok_inj in H. pose proof (f_equal fst H) as E1. pose proof (f_equal snd H) as E2. cbn [fst snd] in E1, E2. subst. apply laid_out_nil.
-  - inversion Hpos as [|? ? Hz Hpos']; subst. cbv zeta in H. cbn [lv zl_secs zl_res] in H.
+  - inversion Hpos as [|? ? Hz Hpos']; subst. cbv zeta in H. cbn [lv zlevel zl_secs zl_res] in H.
+    fold (wsecs fp (rsecs_of z) compress cz) in H.
     destruct (write_index _ _ _ _) as [[ix lvn]| | |] eqn:Eix; cbn [rbind] in H; try discriminate.
     destruct (write_zooms_two_pass o _ (map lv zs)) as [[more hs]| | |] eqn:E; cbn [rbind] in H; try discriminate.
     apply Ok_inj in H. pose proof (f_equal fst H) as E1. pose proof (f_equal snd H) as E2. cbn [fst snd] in E1, E2. subst bytes hdrs.
